@@ -20,7 +20,7 @@ pub fn c14(o: &Oracle, thorough: bool, seed: u64, rep: &Report) {
         for k in 0..(1u32 << 20) {
             let w = base | k;
             let e = card_bit(o, w);
-            if BinaryCard::from_ckc(w) != e {
+            if guarded(|| BinaryCard::from_ckc(w)) != Ok(e) {
                 viol(rep, json!({"op":"bc_from_ckc","w":hilo(w)}), json!({"res": limbs(e)}), "word-to-bit conversion is not the card's deck bit (empty for non-cards)");
             }
         }
@@ -52,7 +52,7 @@ pub fn c14(o: &Oracle, thorough: bool, seed: u64, rep: &Report) {
     }
     for x in &vals {
         let e = if x.count_ones() == 1 && x.trailing_zeros() < 52 { word_of_bit(o, x.trailing_zeros()) } else { 0 };
-        if CKCNumber::from_binary_card(*x) != e {
+        if guarded(|| CKCNumber::from_binary_card(*x)) != Ok(e) {
             viol(rep, json!({"op":"ckc_from_bc","bc":limbs(*x)}), json!({"res": hilo(e)}), "bit-to-word conversion is not the card of exactly one card bit (blank otherwise)");
         }
         rep.eval(1);
@@ -199,6 +199,14 @@ pub fn c15(o: &Oracle, thorough: bool, seed: u64, rep: &Report) {
     for s in 0..4 {
         sets.push(0x1FFFu64 << (13 * s));
     }
+    for lane in lanes() {
+        sets.push(lane);
+        sets.push(lane & all);
+        for a in [0u32, 31, 32, 39, 40, 51, 52, 63] {
+            sets.push(lane | (1u64 << a));
+            sets.push(lane & !(1u64 << a));
+        }
+    }
     let structured = sets.len() as u64;
     let nrand = if thorough { 400_000 } else { 30_000 };
     for _ in 0..nrand {
@@ -225,11 +233,39 @@ pub fn c15(o: &Oracle, thorough: bool, seed: u64, rep: &Report) {
     rep.sample(observe(&json!({"op":"bc_peel","pre":limbs(all | (1 << 60))})));
 }
 
+fn lanes() -> Vec<u64> {
+    let mut v = vec![];
+    for k in 0..8 {
+        v.push(0xFFu64 << (8 * k));
+        v.push(!(0xFFu64 << (8 * k)));
+        v.push(0x0Fu64 << (8 * k));
+        v.push(0xF0u64 << (8 * k));
+    }
+    for k in 0..4 {
+        v.push(0xFFFFu64 << (16 * k));
+        v.push(!(0xFFFFu64 << (16 * k)));
+    }
+    v.extend([0xFFFF_FFFFu64, 0xFFFF_FFFF_0000_0000, 0x5555_5555_5555_5555, 0xAAAA_AAAA_AAAA_AAAA, 0x3333_3333_3333_3333, 0x0F0F_0F0F_0F0F_0F0F]);
+    v
+}
+
 pub fn c16(o: &Oracle, thorough: bool, seed: u64, rep: &Report) {
     let mut vals: Vec<u64> = vec![0];
     for a in 0..64 {
         for b in 0..64 {
             vals.push((1u64 << a) | (1u64 << b));
+        }
+    }
+    // full byte / 16-bit / 32-bit lanes and their complements, alone and with one or two extra bits
+    // (a bit-counting slip typically lives in one lane of a parallel count)
+    for lane in lanes() {
+        vals.push(lane);
+        for a in 0..64 {
+            vals.push(lane | (1u64 << a));
+            vals.push(lane & !(1u64 << a));
+            for b in 0..a {
+                vals.push(lane | (1u64 << a) | (1u64 << b));
+            }
         }
     }
     let structured = vals.len() as u64;
@@ -273,7 +309,7 @@ pub fn c16(o: &Oracle, thorough: bool, seed: u64, rep: &Report) {
     }
     let _ = Two::default();
     rep.distinct(vals.len() as u64);
-    rep.space("all 64 x 64 one- and two-bit values and the empty set", true, structured);
+    rep.space("all 64 x 64 one- and two-bit values, the empty set, and every byte / 16-bit / 32-bit lane (and complement) with up to two extra bits", true, structured);
     rep.space("seeded values of every population count 0..64", false, vals.len() as u64 - structured);
     rep.sample(observe(&json!({"op":"two_from_bc","bc":limbs((1u64 << 51) | 1)})));
     rep.sample(observe(&json!({"op":"two_from_bc","bc":limbs((1u64 << 52) | 1)})));
